@@ -1,6 +1,7 @@
 package kvql
 
 import (
+	"encoding/binary"
 	"fmt"
 	"strings"
 )
@@ -262,7 +263,7 @@ func (a *AggregatePlan) batchGetAggrKeys(chunk []KVPair, ctx *ExecuteCtx) ([]str
 			if err != nil {
 				return nil, err
 			}
-			aggKey = append(aggKey, bval...)
+			aggKey = appendKeyPart(aggKey, bval)
 		}
 		ret[i] = string(aggKey)
 	}
@@ -498,7 +499,7 @@ func (a *AggregatePlan) getAggrKey(key []byte, val []byte, ctx *ExecuteCtx) (str
 	if a.AggrAll {
 		return defaultAggrKey, nil
 	}
-	gkey := ""
+	gkey := make([]byte, 0, 16)
 	kvp := NewKVP(key, val)
 	for _, f := range a.GroupByFields {
 		eval, err := f.Expr.Execute(kvp, ctx)
@@ -509,9 +510,16 @@ func (a *AggregatePlan) getAggrKey(key []byte, val []byte, ctx *ExecuteCtx) (str
 		if err != nil {
 			return "", err
 		}
-		gkey += string(bval)
+		gkey = appendKeyPart(gkey, bval)
 	}
-	return gkey, nil
+	return string(gkey), nil
+}
+
+// appendKeyPart adds one GROUP BY value to a group key. The length prefix keeps value tuples
+// such as ('a', 'bc') and ('ab', 'c') apart.
+func appendKeyPart(key []byte, part []byte) []byte {
+	key = binary.BigEndian.AppendUint32(key, uint32(len(part)))
+	return append(key, part...)
 }
 
 func (a *AggregatePlan) execExpr(kvp KVPair, expr Expression, ctx *ExecuteCtx) ([]byte, error) {
